@@ -101,6 +101,26 @@ BUILT = {
             'executions). A placement product covers missing / ambiguous / repeated / self includes and duplicated directories.',
             'Reference model mc/refasm.py; conditional chains are never split across files.',
             'DESIGN.md 3/C17'),
+    'C01': ('exploration',
+            'exhaustive product of generated instruction layouts x value instances against a bit-string reference encoder',
+            'Frames (default endianness x 7 opcode sizes x opcode endianness x opcode suffix) x every single-operand shape (every '
+            'operand type; argument widths 1..64 x byte_align x endianness; code sizes x prefix/suffix) x every value instance, '
+            'plus ordered pairs (thorough: triples) of shapes x reverse options x matching route, are packed into generated ISA '
+            'definitions; every statement is assembled at two base addresses and its bytes compared with the reference '
+            'concatenation of fields. About 5*10^5 statements in the quick tier.',
+            'Reference encoder mc/refenc.py over bit strings. Pinned conventions for the order of several prefix codes and for '
+            'reverse_bytecode_order are stated in DESIGN.md. Statements are batched; a mismatching batch is re-run statement by '
+            'statement.',
+            'DESIGN.md 3/C01'),
+    'C12': ('exploration',
+            'exhaustive product of constraint configurations x boundary values, one statement per assembly',
+            'Field widths 1..17,24,31,32,33,63,64 x alignment x endianness x opcode width x operand kind with the nine values on '
+            'and next to the signed/unsigned range; numeric_bytecode min/max grids; every numeric-enumeration key set within 0..4; '
+            'address / valid_address operands against zone grids (redefined GLOBAL, named zone); sliced addresses on both sides '
+            'of page boundaries; relative offsets min-1..max+1 for (min,max) x offset_from_instruction_end x instruction size x '
+            'address. ACCEPT iff all constraints hold (then bytes = reference) else REJECT.',
+            'Reference mc/refenc.py; relative targets kept inside GLOBAL.',
+            'DESIGN.md 3/C12'),
 }
 
 NOT_BUILT_REASON = 'check not built yet (work in progress in this session); no claim made'
